@@ -66,6 +66,8 @@ def _mk_closure_site(name, dtype=jnp.int32):
 
 
 cz = _mk_closure_site("z")
+cu = _mk_closure_site("u")
+UROW = jnp.array([-(1.0 if u == 0 else 2.0) * LN2 for u in range(K)], dtype=jnp.float32)
 
 
 @gen
@@ -73,6 +75,28 @@ def hmm_init(prev):
     z = cz(TRANS[prev]) @ "z"
     forced(jnp.asarray(0), EMIT[z]) @ "x"
     return z
+
+
+# the same step model with a second latent u that no custom proposal proposes (filled in by the model's own proposal)
+@gen
+def hmm_u(prev, script):
+    z = forced(script["z"], TRANS[prev]) @ "z"
+    forced(script["u"], UROW) @ "u"
+    forced(jnp.asarray(0), EMIT[z]) @ "x"
+    return z
+
+
+@gen
+def hmm_u_init(prev):
+    z = cz(TRANS[prev]) @ "z"
+    cu(UROW) @ "u"
+    forced(jnp.asarray(0), EMIT[z]) @ "x"
+    return z
+
+
+@gen
+def prop_ext_u(constraints, old_choices, prev, script):
+    return forced(script["z"], QP[constraints["x"]]) @ "z"
 
 
 @gen
@@ -118,7 +142,7 @@ def rat(q):
     return Fraction(q[0], q[1])
 
 
-def replay(beh, n, prev0, key):
+def replay(beh, n, prev0, key, with_u=False):
     """run one behaviour of SMC.tla on the real smc module; returns list of mismatch strings."""
     hist, mass, zhat = beh
     bad = []
@@ -133,15 +157,21 @@ def replay(beh, n, prev0, key):
             if mv in ("init", "init_prop"):
                 zs = jnp.asarray(list(h["zs"]), dtype=jnp.int32)
                 BOX["z"] = list(h["zs"])
+                BOX["u"] = list(h["us"])
                 # a fresh lambda per call: staging is cached per function object, the closure script must be re-read
-                pc = seed(lambda: smc.init(hmm_init, (jnp.asarray(prev0),), const(n), {"x": jnp.asarray(h["obs"])},
+                pc = seed(lambda: smc.init(hmm_u_init if with_u else hmm_init, (jnp.asarray(prev0),), const(n), {"x": jnp.asarray(h["obs"])},
                                            prop_init if mv == "init_prop" else None))(key)
                 pc0 = pc
             elif mv in ("extend", "extend_prop"):
                 zs = jnp.asarray(list(h["zs"]), dtype=jnp.int32)
                 prevs = pc.traces.get_retval()
-                pc = seed(lambda p: smc.extend(p, hmm, (prevs, zs), {"x": jnp.asarray(h["obs"])},
-                                               prop_ext if mv == "extend_prop" else None))(key, pc)
+                if with_u:
+                    scr = {"z": zs, "u": jnp.asarray(list(h["us"]), dtype=jnp.int32)}
+                    pc = seed(lambda p: smc.extend(p, hmm_u, (prevs, scr), {"x": jnp.asarray(h["obs"])},
+                                                   prop_ext_u if mv == "extend_prop" else None))(key, pc)
+                else:
+                    pc = seed(lambda p: smc.extend(p, hmm, (prevs, zs), {"x": jnp.asarray(h["obs"])},
+                                                   prop_ext if mv == "extend_prop" else None))(key, pc)
             elif mv == "resample_cat":
                 C.q = [[a - 1 for a in h["anc"]]]
                 pc = seed(lambda p: smc.resample(p, "categorical"))(key, pc)
@@ -151,7 +181,10 @@ def replay(beh, n, prev0, key):
             elif mv == "rejuv":
                 zs = jnp.asarray(list(h["zs"]), dtype=jnp.int32)
                 # install the proposal script into the traces' arguments (a weight-neutral argument update), then rejuvenate
-                newtr = modular_vmap(lambda tr, s: hmm.update(tr, None, tr.get_args()[0][0], s)[0], in_axes=(0, 0))(pc.traces, zs)
+                if with_u:
+                    newtr = modular_vmap(lambda tr, s: hmm_u.update(tr, None, tr.get_args()[0][0], {"z": s, "u": s * 0})[0], in_axes=(0, 0))(pc.traces, zs)
+                else:
+                    newtr = modular_vmap(lambda tr, s: hmm.update(tr, None, tr.get_args()[0][0], s)[0], in_axes=(0, 0))(pc.traces, zs)
                 pc = smc.ParticleCollection(traces=newtr, log_weights=pc.log_weights, diagnostic_weights=pc.diagnostic_weights,
                                             n_samples=pc.n_samples, log_marginal_estimate=jnp.asarray(pc.log_marginal_estimate))
                 us = []
@@ -174,6 +207,10 @@ def replay(beh, n, prev0, key):
                 bad.append(f"after {mv} (step {step + 1}): log weights {lw} expected {want_lw} (ln2 units)")
             if mv in ("init", "init_prop", "extend", "extend_prop") and z != list(h["zs"]):
                 bad.append(f"after {mv}: particle choices {z} expected {list(h['zs'])}")
+            if with_u and mv in ("init", "init_prop", "extend", "extend_prop"):
+                u = np.asarray(pc.traces.get_choices()["u"]).tolist()
+                if u != list(h["us"]):
+                    bad.append(f"after {mv}: unproposed latent u {u} expected {list(h['us'])}")
             if mv == "rejuv":
                 want_z = [h["zs"][i] if h["acc"][i] else cur_z[i] for i in range(n)]
                 if z != want_z:
@@ -190,7 +227,10 @@ def replay(beh, n, prev0, key):
                 # weights) so that later per-particle moves can be scripted through the traces' arguments
                 ch = pc.traces.get_choices()
                 prevs = jnp.full((n,), prev0, dtype=jnp.int32)
-                tr2, _ = modular_vmap(lambda c, p_, s_: hmm.generate(c, p_, s_), in_axes=(0, 0, 0))(ch, prevs, jnp.zeros((n,), jnp.int32))
+                if with_u:
+                    tr2, _ = modular_vmap(lambda c, p_, s_: hmm_u.generate(c, p_, {"z": s_, "u": s_}), in_axes=(0, 0, 0))(ch, prevs, jnp.zeros((n,), jnp.int32))
+                else:
+                    tr2, _ = modular_vmap(lambda c, p_, s_: hmm.generate(c, p_, s_), in_axes=(0, 0, 0))(ch, prevs, jnp.zeros((n,), jnp.int32))
                 pc = smc.ParticleCollection(traces=tr2, log_weights=pc.log_weights, diagnostic_weights=pc.diagnostic_weights,
                                             n_samples=pc.n_samples, log_marginal_estimate=jnp.asarray(pc.log_marginal_estimate))
         lml = float(pc.log_marginal_likelihood())
@@ -207,18 +247,20 @@ def run(tier, argv):
     chk = Check("C10", tier)
     rng = random.Random(chk.seed)
     key = jax.random.key(chk.seed + 9)
-    plans = [(2, p, "a") for p in ("ie", "irce", "irse", "ije", "ipep", "iprsep", "ierce", "ijrcj")] + [(3, p, "b") for p in ("ie", "irse", "ipep")]
+    plans = [(2, p, "a", False) for p in ("ie", "irce", "irse", "ije", "ipep", "iprsep", "ierce", "ijrcj")] + [(3, p, "b", False) for p in ("ie", "irse", "ipep")]
+    plans += [(2, "ipep", "c", True), (2, "iprsep", "b", True), (2, "ie", "a", True)]       # a latent the custom proposal does not propose
     if tier != "quick":
-        plans += [(2, "iersje", "c"), (3, "irce", "a"), (3, "ije", "c"), (3, "iprsep", "b"), (2, "ierce", "b"), (2, "ijrcj", "c")]
+        plans += [(2, "iersje", "c", False), (3, "irce", "a", False), (3, "ije", "c", False), (3, "iprsep", "b", False), (2, "ierce", "b", False),
+                  (2, "ijrcj", "c", False), (2, "ije", "b", True)]
     os.makedirs(os.path.join(tlc.SPECS, "gen"), exist_ok=True)
     per = 40 if tier == "quick" else 400
-    for n, pipe, obs in plans:
-        cfgname = f"gen/C10_{pipe}_{n}_{obs}.cfg"
+    for n, pipe, obs, with_u in plans:
+        cfgname = f"gen/C10_{pipe}_{n}_{obs}_{int(with_u)}.cfg"
         with open(os.path.join(tlc.SPECS, cfgname), "w") as f:
-            f.write(f'SPECIFICATION Spec\nCONSTANTS N = {n}\n  PipeName = "{pipe}"\n  ObsName = "{obs}"\n  Prev0 = 0\n'
+            f.write(f'SPECIFICATION Spec\nCONSTANTS N = {n}\n  PipeName = "{pipe}"\n  ObsName = "{obs}"\n  Prev0 = 0\n  WithU = {"TRUE" if with_u else "FALSE"}\n'
                     "INVARIANT WeightsNonPositive\nINVARIANT Accumulate\nINVARIANT PrintHist\nPROPERTY RejuvenateKeepsWeights\nPOSTCONDITION Unbiased\n")
         res = tlc.run("SMC", cfgname, workers=1, timeout=1500)
-        chk.add_tlc(res, f"SMC N={n} pipeline={pipe} obs={obs} (Unbiased postcondition holds)")
+        chk.add_tlc(res, f"SMC N={n} pipeline={pipe} obs={obs} unproposed-latent={with_u} (Unbiased postcondition holds)")
         behs = printed_values(res.stdout, '<<"BEH"') + printed_values(res.stdout, '<< "BEH"')
         tlc.cleanup(res)
         if not behs:
@@ -226,12 +268,12 @@ def run(tier, argv):
         chosen = behs if len(behs) <= per else rng.sample(behs, per)
         for b in chosen:
             hist = [dict(h) for h in b[1]]
-            kk = f"smc|N={n}|pipe={pipe}|obs={obs}|" + ">".join(
+            kk = f"smc|N={n}|pipe={pipe}|obs={obs}|u={int(with_u)}|" + ">".join(
                 h["move"] + ":" + ",".join(str(v) for v in (h.get("zs") or h.get("anc") or ())) +
                 ("/" + "".join("A" if a else "R" for a in h["acc"]) if "acc" in h else "") for h in hist)
             chk.case(kk)
             chk.validated(1)
-            bad = replay((hist, b[2], b[3]), n, 0, key)
+            bad = replay((hist, b[2], b[3]), n, 0, key, with_u)
             if bad:
                 chk.violation(kk, "; ".join(bad[:3]), {"N": n, "pipeline": pipe, "obs": obs, "history": [str(h) for h in hist]})
         chk.sample({"N": n, "pipeline": pipe, "behaviour": [h["move"] for h in [dict(x) for x in chosen[0][1]]], "Zhat": list(chosen[0][3])})
